@@ -236,7 +236,17 @@ class _Judge:
         )
         if exc is not None or oshape != tuple(shp):
             return None
-        return to_nested(out)
+        res = to_nested(out)
+        # the result belongs to the caller, and so does the argument: both are overwritten after the call
+        # (blanking wells of a layout in place); later calls on the same object must not see that
+        for a in (out, arg):
+            if isinstance(a, np.ndarray) and a.size and a.flags.writeable:
+                try:
+                    a[...] = "ZZ9"
+                    ctx.count("caller_overwrote_returned_or_passed_array")
+                except Exception:
+                    pass
+        return res
 
     def eq(self, rule, got, want, fname, name, ids):
         return self.ctx.check(
